@@ -296,6 +296,18 @@ func runControls(checkerDir string) ([]string, error) {
 	if !consts[1] || !consts[3] || loops || len(tg.Calls(sp.Pkg.Path()+".inlLayout")) != 0 {
 		return fail("normaliser control: table loop not written out (constant offsets seen %v, loop left %v)", consts, loops)
 	}
+	// a helper whose defers come first is merged with the deferred call made after its body
+	dg := ssax.NewGraph(nsps[0].Func("InlDeferCaller"), nr)
+	nDefer := 0
+	dg.Instrs(func(i ssa.Instruction) {
+		if _, ok := i.(*ssa.Defer); ok {
+			nDefer++
+		}
+	})
+	stats, closes := dg.Calls("(*os.File).Stat"), dg.Calls("(*os.File).Close")
+	if len(stats) != 1 || len(closes) != 1 || nDefer != 0 || len(dg.Calls(sp.Pkg.Path()+".inlStatAndClose")) != 0 || !dg.Dominates(stats[0], closes[0]) {
+		return fail("normaliser control: leading-defer merge (Stat calls %d, Close calls %d, defers left %d)", len(stats), len(closes), nDefer)
+	}
 	fired = append(fired, "normaliser")
 	return fired, nil
 }
